@@ -1,9 +1,11 @@
 package utils
 
 import (
+	"bytes"
 	"context"
 	"crypto/tls"
 	"crypto/x509"
+	"encoding/pem"
 	"time"
 
 	sdk "github.com/cosmos/cosmos-sdk/types"
@@ -64,6 +66,15 @@ func NewServerTLSConfig(ctx context.Context, certs []tls.Certificate, cquery cty
 				}
 				if (len(resp.Certificates) != 1) || !resp.Certificates[0].Certificate.IsState(ctypes.CertificateValid) {
 					return errors.New("tls: attempt to use non-existing or revoked certificate")
+				}
+
+				// the client must present exactly the certificate its account published on chain
+				blk, rest := pem.Decode(resp.Certificates[0].Certificate.Cert)
+				if blk == nil || len(rest) > 0 {
+					return errors.New("tls: invalid certificate stored on chain")
+				}
+				if !bytes.Equal(blk.Bytes, certificates[0]) {
+					return errors.New("tls: presented certificate differs from the one stored on chain")
 				}
 
 				clientCertPool := x509.NewCertPool()
